@@ -1605,10 +1605,12 @@ MANIFEST = {
             "shadowing of / fall-back to master), module-level load_theory calls go to master; "
             "users_isolated: a load for user B -- with the lazily imported modules and the master loads it triggers -- "
             "and every edit / touch / load_metadata of B's files leave the library and cache of every other user A (A not "
-            "master for loads) exactly as they were; user_resolution_spec_partial (a user's load = the specification on that "
-            "user's own files) is proved for worlds without lazy imports only; there is NO history-level load_eq_spec for "
-            "several users (it needs the cache invariant threaded through every user's state): the results of loads in "
-            "multi-user histories, including users whose imports differ from master's and theories master lacks, are judged by "
+            "master for loads) exactly as they were; user_resolution_spec (lazy imports included, every user, every focus): whenever the "
+            "cache invariant holds for the library of user u, a normal return of load_theory(n, limit, username=u) carries the "
+            "specification on u's OWN files (a module's load_theory call works on master and never disturbs u's library); there "
+            "is NO history-level load_eq_spec for several users yet (that the invariant of EVERY user's library survives every "
+            "multi-user history -- in particular master's through another user's lazy imports -- is not proved): the results "
+            "of loads in multi-user histories, including users whose imports differ from master's and theories master lacks, are judged by "
             "the second-user histories (fresh process, reference loader, model step by step). FUEL: every theorem admits the outcome 'the model ran out of fuel'; no theorem says that some amount of "
             "fuel suffices; every run confirms on its own histories that fuel 400 sufficed. "
             "FAILING-INPUT SEARCH: when the model correspondence breaks on a synthetic history on which no oracle objected, an "
